@@ -236,6 +236,21 @@ fn catalog_term(c: &Catalog) -> String {
     }).collect();
     clist(&ss)
 }
+fn catalog_term_sorted(c: &Catalog) -> String {
+    let mut ss: Vec<&Schema> = c.schemas().values().collect();
+    ss.sort_by(|a, b| a.name().cmp(b.name()));
+    let v: Vec<String> = ss.iter().map(|s| {
+        let mut ts: Vec<&TableDef> = s.tables().values().collect();
+        ts.sort_by(|a, b| a.name().cmp(b.name()));
+        format!("Schema {} {} {}", s.id(), st(s.name()), clist(&ts.iter().map(|t| table_term(t)).collect::<Vec<_>>()))
+    }).collect();
+    clist(&v)
+}
+fn fnv64(b: &[u8]) -> u64 {
+    let mut h: u64 = 0xcbf29ce484222325;
+    for x in b { h ^= *x as u64; h = h.wrapping_mul(0x100000001b3); }
+    h
+}
 fn summary_term(c: &Catalog, skip: &dyn Fn(&str, &str) -> bool, skip_idx: &dyn Fn(&str) -> bool) -> String {
     let mut v = vec![];
     for s in c.schemas().values() { for t in s.tables().values() {
@@ -302,7 +317,9 @@ fn codec_case(w: &mut CaseWriter, tmp: &mut Tmp, sc: &SCat, kind: &str) {
     let term_cat = catalog_term(&cat);
     let (sflag, body, file, l) = run_codec(tmp, &cat);
     let same = sflag == 0 && file.len() >= 128 && file[128..] == body[..];
-    let term = format!("Codec {} {} {} {} {}", term_cat, sflag, cbool(same), cbytes(&file), load_term(&l));
+    // the loaded catalog in full only where it differs from the built one (both printed in name order)
+    let lterm = match &l { Loaded::Ok(c2) if catalog_term_sorted(c2) == catalog_term_sorted(&cat) => "LSame".to_string(), x => load_term(x) };
+    let term = format!("Codec {} {} {} {} {} {}", term_cat, sflag, cbool(same), file.len(), fnv64(&file), lterm);
     let ntab: usize = sc.schemas.iter().map(|s| s.tables.len()).sum();
     let rich = sc.schemas.iter().any(|s| s.tables.iter().any(|t| !t.cols.is_empty() && (!t.idx.is_empty() || t.cols.iter().any(|c| !c.constrs.is_empty()))));
     w.push(term, format!("codec tags={} cat={}", scat_tags(sc), scat_enc(sc)), ntab >= 1 && rich, kind);
@@ -770,11 +787,14 @@ fn crash_case(w: &mut CaseWriter, tmp: &mut Tmp, rng: &mut Rng, ops: &[Op], last
     let run = match crash_setup(tmp, ops, last) { Some(r) => r, None => { w.count("crash_setup_skipped", 1); return; } };
     let mut pts = crash_points(rng, &run, thorough);
     if let Some(n) = only_n { pts.retain(|p| p.0 == n); if pts.is_empty() { pts.push((n, true)); } else { pts[0].1 = true; } }
-    let mut obs = vec![];
+    // run-length: consecutive crash states with the same observation
+    let mut runs: Vec<(i64, i64, String)> = vec![];
     for (n, with_open) in pts {
         let (l, o) = crash_obs(&run, n, with_open);
-        obs.push(format!("({}, {}, {})", z(n as i128), pout_term(&l), open_term(&o)));
+        let t = format!("{} {}", pout_term(&l), open_term(&o));
+        match runs.last_mut() { Some(r) if r.2 == t && r.1 + 1 == n => r.1 = n, _ => runs.push((n, n, t)) }
     }
+    let obs: Vec<String> = runs.iter().map(|(lo, hi, t)| format!("ORun {} {} {}", z(*lo as i128), z(*hi as i128), t)).collect();
     let term = format!("Crash {} {} {} {} {}", cbool(run.inplace), run.old_term, cbytes(&run.oldfile), cbytes(&run.file), clist(&obs));
     let mut line = format!("crash ops={} | last={}", ops_enc(ops), op_enc(last));
     if let Some(n) = only_n { line.push_str(&format!(" | n={}", n)); }
@@ -833,21 +853,23 @@ fn gen(a: &Args) {
         w.finish(&[]);
         return;
     }
+    let t_0 = std::time::Instant::now();
     // ---- (a) codec: catalogs through the schema API
     for sc in boundary_scats(thorough) { codec_case(&mut w, &mut tmp, &sc, "codec_boundary"); }
-    let n_codec = if thorough { 6000 } else { 300 };
+    let n_codec = if thorough { 4000 } else { 160 };
     for i in 0..n_codec {
         let shape = match i % 10 { 7 => 1, 8 | 9 => 2, _ => 0 };
         let sc = gen_scat(&mut rng, shape);
         codec_case(&mut w, &mut tmp, &sc, ["codec_plain", "codec_schema_set", "codec_expr_partial_index"][shape as usize]);
     }
+    let t_a = std::time::Instant::now();
     // ---- (b) raw streams through deserialize / load
-    let n_dec = if thorough { 6000 } else { 400 };
+    let n_dec = if thorough { 5000 } else { 240 };
     for i in 0..n_dec {
         let mut b = valid_body(&mut rng, &mut tmp);
         let k = 1 + rng.below(3);
         for _ in 0..k { mutate(&mut rng, &mut b); }
-        if b.len() > 1500 { b.truncate(1500); }
+        if b.len() > 700 { b.truncate(700); }
         if i % 4 == 0 { let f = file_of(&b); loadf_case(&mut w, &mut tmp, &f, "loadf_mutated_body"); } else { dec_case(&mut w, &b, "dec_mutated"); }
     }
     for s in BAD_UTF8.iter().chain(GOOD_UTF8.iter()) {
@@ -855,7 +877,7 @@ fn gen(a: &Args) {
         let mut n = b"ab".to_vec(); n.extend_from_slice(s); n.push(b'c');
         dec_case(&mut w, &stream_with_name(&n), "dec_utf8");
     }
-    let n_utf = if thorough { 3000 } else { 200 };
+    let n_utf = if thorough { 3000 } else { 120 };
     for _ in 0..n_utf {
         // random short byte strings as a name, biased to lead/continuation bytes
         let n = 1 + rng.below(5) as usize;
@@ -872,7 +894,7 @@ fn gen(a: &Args) {
         // the built-in empty schema comes first or last: cut the stream at every length
         for cut in 0..=body.len() { dec_case(&mut w, &body[..cut], "dec_every_prefix"); }
     }
-    let n_rand = if thorough { 2000 } else { 150 };
+    let n_rand = if thorough { 2000 } else { 100 };
     for _ in 0..n_rand { let n = rng.below(60) as usize; let b = rng.bytes(n); dec_case(&mut w, &b, "dec_random"); }
     // headers
     {
@@ -894,23 +916,26 @@ fn gen(a: &Args) {
         let mut f = good.clone(); f[72..80].copy_from_slice(&0u64.to_le_bytes()); variants.push(f);
         for f in variants { loadf_case(&mut w, &mut tmp, &f, "loadf_header"); }
     }
+    let t_b = std::time::Instant::now();
     // ---- (c) DDL histories
-    let n_ddl = if thorough { 400 } else { 36 };
+    let n_ddl = if thorough { 300 } else { 24 };
     for i in 0..n_ddl {
         let shape = match i % 10 { 6 => 1, 7 | 8 => 2, _ => 0 };
         let len = 2 + rng.below(9) as usize;
         let ops = gen_history(&mut rng, shape, len);
         ddl_case(&mut w, &mut tmp, &ops, ["ddl_plain", "ddl_user_schema", "ddl_expr_partial_index"][shape as usize]);
     }
+    let t_c = std::time::Instant::now();
     // ---- (d) crash states of one more DDL statement
-    let n_crash = if thorough { 160 } else { 24 };
+    let n_crash = if thorough { 120 } else { 12 };
     for _ in 0..n_crash {
         let len = 1 + rng.below(5) as usize;
         let ops = gen_history(&mut rng, 0, len);
         let last = gen_last(&mut rng, &ops);
         crash_case(&mut w, &mut tmp, &mut rng, &ops, &last, None, thorough, "crash_every_prefix");
     }
-    w.finish(&[]);
+    let t_d = std::time::Instant::now();
+    w.finish(&[("phase_ms".to_string(), format!("[{}, {}, {}, {}]", (t_a - t_0).as_millis(), (t_b - t_a).as_millis(), (t_c - t_b).as_millis(), (t_d - t_c).as_millis()))]);
 }
 
 /// Oracle only (no model).  Codec: every table of the built catalog comes back `==` after
